@@ -20,7 +20,63 @@ pub fn exec(op: &str, a: &Value) -> Option<Value> {
             js::i(d, "h"), js::i(d, "mi"), js::i(d, "s"), js::i(d, "ms"), js::i(d, "us"), js::i(d, "ns"))) }, p_datetime),
         "Instant.fromStr" => run(|| { let d = &a["dt"]; Instant::from_str(&format!("{}-{:02}-{:02}T{:02}:{:02}:{:02}.{:03}{:03}{:03}Z", year_str(js::i(d, "y")), js::i(d, "m"), js::i(d, "d"),
             js::i(d, "h"), js::i(d, "mi"), js::i(d, "s"), js::i(d, "ms"), js::i(d, "us"), js::i(d, "ns"))) }, p_instant),
+        "RealZone.probe" => real_zone_probe(a),
+        _ if op.starts_with("ZonedX.") => zoned_extreme(op, a),
         "ZonedDateTime.new" => run(|| ZonedDateTime::try_new(num(&a["ns"]), iso(), utc()), |z| big(z.epoch_nanoseconds().as_i128())),
         _ => return None,
     })
+}
+
+/// C03: a bundle of public ZonedDateTime / TimeZone calls on a real IANA zone through the bundled file-system provider.
+/// Returns, per call, the outcome kind; the overall kind is "panic" if any call panicked.
+pub fn real_zone_probe(a: &Value) -> Value {
+    use std::panic::{catch_unwind, AssertUnwindSafe};
+    let zone = js::s(a, "zone").to_string();
+    let ns = num(&a["ns"]);
+    let what = js::s(a, "call");
+    let kind = |r: std::thread::Result<TemporalResult<()>>| -> &'static str { match r { Ok(Ok(())) => "ok", Ok(Err(e)) => kind_of(&e), Err(_) => "panic" } };
+    let k = FS.with(|p| {
+        let tz = match TimeZone::try_from_str(&zone) { Ok(t) => t, Err(e) => return kind_of(&e) };
+        let z = match ZonedDateTime::try_new(ns, iso(), tz.clone()) { Ok(z) => z, Err(e) => return kind_of(&e) };
+        match what {
+            "fields" => kind(catch_unwind(AssertUnwindSafe(|| { z.year_with_provider(p)?; z.hour_with_provider(p)?; z.offset_with_provider(p)?; z.day_of_week_with_provider(p)?; Ok(()) }))),
+            "toString" => kind(catch_unwind(AssertUnwindSafe(|| z.to_string_with_provider(p).map(|_| ())))),
+            "startOfDay" => kind(catch_unwind(AssertUnwindSafe(|| z.start_of_day_with_provider(p).map(|_| ())))),
+            "hoursInDay" => kind(catch_unwind(AssertUnwindSafe(|| z.hours_in_day_with_provider(p).map(|_| ())))),
+            "addDay" => kind(catch_unwind(AssertUnwindSafe(|| { let d = Duration::from(DateDuration::new(ffz(), ffz(), ffz(), temporal_rs::primitive::FiniteF64::from(1i8))?); z.add_with_provider(&d, None, p).map(|_| ()) }))),
+            "subMonth" => kind(catch_unwind(AssertUnwindSafe(|| { let d = Duration::from(DateDuration::new(ffz(), temporal_rs::primitive::FiniteF64::from(1i8), ffz(), ffz())?); z.subtract_with_provider(&d, None, p).map(|_| ()) }))),
+            "untilEpoch" => kind(catch_unwind(AssertUnwindSafe(|| { let o = ZonedDateTime::try_new(0, iso(), tz.clone())?; let mut st = DifferenceSettings::default(); st.largest_unit = Some(Unit::Year); z.until_with_provider(&o, st, p).map(|_| ()) }))),
+            "fromLocal" => kind(catch_unwind(AssertUnwindSafe(|| { let dt = z.to_plain_datetime_with_provider(p)?; dt.to_zoned_date_time_with_provider(&tz, Disambiguation::Compatible, p).map(|_| ()) }))),
+            "withPlainTime" => kind(catch_unwind(AssertUnwindSafe(|| z.with_plain_time_and_provider(PlainTime::try_new(2, 30, 0, 0, 0, 0)?, p).map(|_| ())))),
+            _ => "unknown-call",
+        }
+    });
+    json!({"kind": k})
+}
+fn ffz() -> temporal_rs::primitive::FiniteF64 { temporal_rs::primitive::FiniteF64::from(0i8) }
+
+/// C03: ZonedDateTime operations on a synthetic zone with extreme receivers and arguments; only the outcome kind is projected.
+fn zoned_extreme(op: &str, a: &Value) -> Value {
+    use crate::synth_tz::*;
+    let z = Zone::from_json(&a["zone"]);
+    let p = SynthProvider::with_zone(z.clone());
+    let tz = time_zone_for(&z, false);
+    // receiver: absolute epoch ns (big) or seconds relative to the synthetic base day
+    let at = |v: &Value| -> i128 { if v.get("rel").is_some() { (js::i(v, "rel") as i128 + BASE_SEC as i128) * 1_000_000_000 + 5 } else { num(&v["abs"]) } };
+    let recv = || ZonedDateTime::try_new(at(&a["recv"]), iso(), tz.clone());
+    fn unit<T>(_: &T) -> Value { Value::Null }
+    match op {
+        "ZonedX.add" => run(|| recv()?.add_with_provider(&arg_duration(&a["dur"])?, arg_ovf(a), &p), unit),
+        "ZonedX.subtract" => run(|| recv()?.subtract_with_provider(&arg_duration(&a["dur"])?, arg_ovf(a), &p), unit),
+        "ZonedX.until" => run(|| recv()?.until_with_provider(&ZonedDateTime::try_new(at(&a["other"]), iso(), tz.clone())?, arg_settings(&a["st"])?, &p), unit),
+        "ZonedX.since" => run(|| recv()?.since_with_provider(&ZonedDateTime::try_new(at(&a["other"]), iso(), tz.clone())?, arg_settings(&a["st"])?, &p), unit),
+        "ZonedX.startOfDay" => run(|| recv()?.start_of_day_with_provider(&p), unit),
+        "ZonedX.hoursInDay" => run(|| recv()?.hours_in_day_with_provider(&p), unit),
+        "ZonedX.fields" => run(|| { let x = recv()?; x.year_with_provider(&p)?; x.day_with_provider(&p)?; x.hour_with_provider(&p)?; x.nanosecond_with_provider(&p)?; x.offset_with_provider(&p)?;
+            x.day_of_week_with_provider(&p)?; x.day_of_year_with_provider(&p)?; x.week_of_year_with_provider(&p)?; x.days_in_month_with_provider(&p)?; x.in_leap_year_with_provider(&p)?; x.to_plain_datetime_with_provider(&p) }, unit),
+        "ZonedX.toString" => run(|| recv()?.to_string_with_provider(&p), unit),
+        "ZonedX.withPlainTime" => run(|| recv()?.with_plain_time_and_provider(arg_time(&a["time"])?, &p), unit),
+        "ZonedX.fromLocal" => run(|| arg_datetime(&a["dt"])?.to_zoned_date_time_with_provider(&tz, Disambiguation::from_str(js::s(a, "dis")).expect("HARNESS dis"), &p), unit),
+        _ => json!({"kind": "harness-error", "what": "unknown ZonedX op"}),
+    }
 }
